@@ -4,7 +4,7 @@
 # otherwise the change is obsolete on this HEAD), run the checks named in meta.json ("checks", default: the property)
 # with ODML_REPO pointing at the worktree (evidence goes to .work/scratch_evidence), report caught / MISSED.
 cd /verif
-WT=/tmp/wt-selftest
+WT=/tmp/wt-selftest-$$
 DIRS="${*:-seeded/mut-*}"
 for D in $DIRS; do
   [ -f "$D/patch.diff" ] || continue
